@@ -169,6 +169,9 @@ package streams
 
 //@ func streams/values/boolean.DeserializeBoolean
 //@ params this
+//@ [C12] ensures a_json_boolean_is_itself: this.dyn == typetag("bool") ==> result1 == nil && result0 == unboxas(this, "bool")
+//@ [C12] ensures the_numbers_0_and_1_are_false_and_true: this.dyn == typetag("float64") ==> (result1 == nil) == (unboxas(this, "float64") == smt(Real, "0.0") || unboxas(this, "float64") == smt(Real, "1.0")) && (result1 == nil ==> result0 == (unboxas(this, "float64") == smt(Real, "1.0")))
+//@ [C12] ensures anything_else_is_rejected: this.dyn != typetag("bool") && this.dyn != typetag("float64") ==> result1 != nil
 //@ [C11] ensures terminates_without_panic: true
 
 //@ func streams/values/boolean.LessBoolean
@@ -181,6 +184,8 @@ package streams
 
 //@ func streams/values/dateTime.DeserializeDateTime
 //@ params this
+//@ [C12] ensures the_instant_the_lexical_form_denotes: result1 == nil ==> this.dyn == typetag("string") && instant(result0) == (parseTimeOK("2006-01-02T15:04:05Z07:00", unboxstr(this)) ? parseTimeInstant("2006-01-02T15:04:05Z07:00", unboxstr(this)) : parseTimeInstant("2006-01-02T15:04Z07:00", unboxstr(this)))
+//@ [C12] ensures accepted_iff_rfc3339_with_or_without_seconds: this.dyn == typetag("string") ==> (result1 == nil) == (parseTimeOK("2006-01-02T15:04:05Z07:00", unboxstr(this)) || parseTimeOK("2006-01-02T15:04Z07:00", unboxstr(this)))
 //@ [C11] ensures terminates_without_panic: true
 
 //@ func streams/values/dateTime.LessDateTime
@@ -193,6 +198,20 @@ package streams
 
 //@ func streams/values/duration.DeserializeDuration
 //@ params this
+//@ modifies gDurY, gDurMo, gDurD, gDurH, gDurMi, gDurS
+//@ [C12] at call (*regexp.Regexp).FindStringSubmatch#1: ghost gDurY = 0
+//@ [C12] at call (*regexp.Regexp).FindStringSubmatch#1: ghost gDurMo = 0
+//@ [C12] at call (*regexp.Regexp).FindStringSubmatch#1: ghost gDurD = 0
+//@ [C12] at call (*regexp.Regexp).FindStringSubmatch#1: ghost gDurH = 0
+//@ [C12] at call (*regexp.Regexp).FindStringSubmatch#1: ghost gDurMi = 0
+//@ [C12] at call (*regexp.Regexp).FindStringSubmatch#1: ghost gDurS = 0
+//@ [C12] at call strconv.ParseInt#1: ghost gDurY = $res0
+//@ [C12] at call strconv.ParseInt#2: ghost gDurMo = $res0
+//@ [C12] at call strconv.ParseInt#3: ghost gDurD = $res0
+//@ [C12] at call strconv.ParseInt#4: ghost gDurH = $res0
+//@ [C12] at call strconv.ParseInt#5: ghost gDurMi = $res0
+//@ [C12] at call strconv.ParseInt#6: ghost gDurS = $res0
+//@ [C12] ensures years_of_365_days_months_of_30_days: result1 == nil ==> this.dyn == typetag("string") && (result0 == 1000000000 * (gDurY * 8760 * 3600 + gDurMo * 720 * 3600 + gDurD * 24 * 3600 + gDurH * 3600 + gDurMi * 60 + gDurS) || result0 == 0 - 1000000000 * (gDurY * 8760 * 3600 + gDurMo * 720 * 3600 + gDurD * 24 * 3600 + gDurH * 3600 + gDurMi * 60 + gDurS))
 // the pattern P(\d*Y)?(\d*M)?(\d*D)?(T(\d*H)?(\d*M)?(\d*S)?)? matches every string that starts with 'P' and has 7 groups
 //@ [C11] at call (*regexp.Regexp).FindStringSubmatch#1: assume!post a_P_prefixed_string_always_matches_with_seven_groups: len($res0) == 8
 //@ [C11] ensures terminates_without_panic: true
@@ -232,6 +251,8 @@ package streams
 
 //@ func streams/values/nonNegativeInteger.DeserializeNonNegativeInteger
 //@ params this
+//@ [C12] ensures counts_are_not_negative: result1 == nil ==> result0 >= 0 && this.dyn == typetag("float64")
+//@ [C12] ensures only_numbers_are_accepted: this.dyn != typetag("float64") ==> result1 != nil
 //@ [C11] ensures terminates_without_panic: true
 
 //@ func streams/values/nonNegativeInteger.LessNonNegativeInteger
